@@ -682,3 +682,43 @@ pub fn scratch_root() -> PathBuf {
     let base = if shm.is_dir() { shm.to_path_buf() } else { std::env::temp_dir() };
     base.join(format!("pearl-verif-{}", std::process::id()))
 }
+
+/// Applies the model side of an op only (no storage involved). Covers the ops used in suffixes of the
+/// cancellation check; returns false for ops it does not handle.
+pub fn model_apply(model: &mut Model, keylen: usize, idx: usize, op: &Op) -> bool {
+    match op {
+        Op::Write { key, ts, meta, vlen, fill } => {
+            let mm = meta_pool(*meta);
+            let val = value_bytes(idx, resolve_vlen(*vlen, keylen, &mm), *fill);
+            model.write(*key, *ts, val, mm);
+            true
+        }
+        Op::Delete { key, ts, meta, only_if } => {
+            model.delete(*key, *ts, meta_pool(*meta), *only_if);
+            true
+        }
+        Op::CloseActive => {
+            model.close_active();
+            true
+        }
+        Op::CreateActive => {
+            model.create_active();
+            true
+        }
+        Op::Restore => {
+            model.restore_active();
+            true
+        }
+        Op::Switch => {
+            model.close_active();
+            model.create_active();
+            true
+        }
+        Op::Reopen { lazy, .. } => {
+            model.restart(*lazy);
+            true
+        }
+        Op::WaitIdle | Op::Fsync | Op::Free | Op::Offload { .. } => true,
+        _ => false,
+    }
+}
